@@ -373,6 +373,15 @@ func (c *Client) onFrame(raw string) {
 	c.Frames = append(c.Frames, f)
 	s.obs(c.Name, "recv "+raw)
 	s.stat("frames_received", 1)
+	if s.Cfg.P.fault("malformed") && strings.Contains(raw, "hostile-") {
+		// C15.b: these values only ever travel inside malformed or inapplicable
+		// service messages (see hostile.go)
+		if strings.Contains(raw, "hostile-q") {
+			c.violate("C15", "b", "query-answer-partly-applied", "client %s received data taken from a query answer that contains an inapplicable event, which is to be discarded as a whole: %s", c.Name, raw)
+		} else {
+			c.violate("C15", "b", "event-partly-applied", "client %s received data taken from a malformed event, which is to be discarded as a whole: %s", c.Name, raw)
+		}
+	}
 	var m map[string]json.RawMessage
 	if err := json.Unmarshal([]byte(raw), &m); err != nil {
 		c.violate("C07", "frame", "notjson", "client %s received a frame that is not a JSON object: %s", c.Name, raw)
